@@ -681,13 +681,24 @@ int main(void) { ferret_%(T)s a = {%(a)s}, b = {%(b)s}, q, r; ferret_%(T)s_div_p
 
 
 # ------------------------------------------------------------------------------------------------ pow: loop induction
-def ob_pow_loop(cx, T, timeout_ms):
+def ob_pow_loop(cx, T, timeout_ms, uf=None):
     """ferret_<T>_pow (256-bit types) as inductive obligations on the real square-and-multiply loop, over the CONTRACT
     of the type's own multiply (ferret_<T>_mul writes a*b mod 2^N; discharged by the mul obligations) and of
     is_zero: INIT result = 1, exponent copy = exp, base = base (a negative signed exponent returns 0 at once);
     STEP one iteration from an ARBITRARY (result, base, e != 0): result' = odd(e) ? result*base : result,
     base' = base*base, e' = e >> 1 (all mod 2^N); EXIT e = 0 returns result.  With the textbook argument
     (result * base^e is invariant) this gives base^exp mod 2^N."""
+    if uf is None:
+        # first with the multiply as bit-vector multiplication (finds wrong squaring / multiplying code by a concrete
+        # counterexample); if the solver cannot finish, with the multiply as an uninterpreted commutative function
+        # (decides the loop structure under the multiply contract; a counterexample of that encoding is not concrete)
+        r = ob_pow_loop(cx, T, timeout_ms, uf=False)
+        if r[0] != 'unknown':
+            return r
+        r2 = ob_pow_loop(cx, T, timeout_ms, uf=True)
+        if r2[0] == 'held':
+            return r2
+        return 'unknown', None, r2[2]
     nl, signed = TYPES[T]
     N = 64 * nl
     fname = '@ferret_%s_pow' % T
@@ -700,12 +711,18 @@ def ob_pow_loop(cx, T, timeout_ms):
 
     byreg = nl == 2     # 128-bit types travel in registers: (i64 lo, i64 hi) per operand, { i64, i64 } as the result
 
+    MUL = z3.Function('mul%d' % N, z3.BitVecSort(N), z3.BitVecSort(N), z3.BitVecSort(N))
+
     def cmul(x, y):
-        # x*y with the operands in one canonical order: bit-blasting cannot show a*b = b*a at this width in reasonable time
+        # the type's multiply under its contract "returns x*y mod 2^N" (discharged by the mul obligations), kept as an
+        # uninterpreted commutative function here: the STEP obligation only needs that the loop multiplies the right
+        # operands, and bit-blasting 128/256-bit multipliers to compare them does not finish
+        if not uf:
+            return x * y
         x, y = simp(x), simp(y)
-        if x.get_id() > y.get_id():
+        if str(x) > str(y):
             x, y = y, x
-        return x * y
+        return MUL(x, y)
 
     def mul_contract(ex_, st_, a_, work_):
         if byreg:
